@@ -47,7 +47,11 @@ Gen(d, L) ==
        \o Map(sub, LAMBDA x : [t |-> SBlock(<<Tp, x.t>>), c |-> "{T;" \o x.c \o "}"])
        \o (IF L = 0 THEN <<>> ELSE     \* a jump of THIS loop executed after an inner construct has finished
             Map(sub, LAMBDA x : [t |-> SBlock(<<x.t, SBreak, Tp>>), c |-> "{" \o x.c \o ";break}"])
-            \o Map(sub, LAMBDA x : [t |-> SBlock(<<x.t, SIf(Bin("==", Id(Cnt(L)), Lit(N(2))), SContinue, None), Tp>>), c |-> "{" \o x.c \o ";if-continue}"]))
+            \o Map(sub, LAMBDA x : [t |-> SBlock(<<x.t, SIf(Bin("==", Id(Cnt(L)), Lit(N(2))), SContinue, None), Tp>>), c |-> "{" \o x.c \o ";if-continue}"])
+            \o (LET inner == << [t |-> WhileLoop(L + 1, Tp), c |-> "while(T)"], [t |-> ForLoop(L + 1, 7, Tp), c |-> "for7(T)"],     \* ... in particular after an inner LOOP, at every depth
+                               [t |-> WhileLoop(L + 1, SBreak), c |-> "while(break)"], [t |-> ForLoop(L + 1, 7, SContinue), c |-> "for7(continue)"] >> IN
+                Map(inner, LAMBDA x : [t |-> SBlock(<<x.t, SBreak, Tp>>), c |-> "{" \o x.c \o ";break}"])
+                \o Map(inner, LAMBDA x : [t |-> SBlock(<<x.t, SIf(Bin("==", Id(Cnt(L)), Lit(N(2))), SContinue, None), Tp>>), c |-> "{" \o x.c \o ";if-continue}"])))
 
 Stray == LET sig == { <<"break", SBreak>>, <<"continue", SContinue>>, <<"return", SReturn(None)>>, <<"returnv", SReturn(Lit(N(7)))>> } IN
          { [t |-> s[2], c |-> "stray_" \o s[1]] : s \in sig }
